@@ -379,7 +379,8 @@ def profile_for(pid, tier):
         P["perts"].update({"stage:jit": 8, "stage:vmap": 5, "boundary:jit-id": 4, "stage:vmap-args": 6})
         P["pert_rate"] = 0.9
         P["oob_index"] = 0.1
-        P["ops"].update({"simulate": 4, "importance": 5})
+        P["ops"].update({"simulate": 4, "importance": 5, "project": 5})
+        G["root_kinds"] = dict(G["kinds"], switch=10, or_else=3, mix=2, mask=4)
         G["kinds"].update({"switch": 5, "mask": 3})
     elif pid == "C38":
         P["ops"].update({"empty_edit": 4, "static_edit": 8, "simulate": 4, "importance": 3, "undo": 6})
